@@ -156,19 +156,29 @@ func buildWorkflow(s *spec.Spec) (*sp.Workflow, map[string]*node) {
 			for _, f := range ps.Feeds {
 				switch f.How {
 				case "int":
-					ints := []int{}
+					// one scratch slice for all numeric feeds of the program, overwritten after each call (a sweep that
+					// fills one buffer per process): FromInt / FromFloat have taken their values when they return
+					ints := scratchInts[:0]
 					for _, v := range f.Values {
 						n, _ := strconv.Atoi(v)
 						ints = append(ints, n)
 					}
+					scratchInts = ints
 					p.InParam(f.Port).FromInt(ints...)
+					for k := range ints {
+						ints[k] = -7777
+					}
 				case "float":
-					fl := []float64{}
+					fl := scratchFloats[:0]
 					for _, v := range f.Values {
 						x, _ := strconv.ParseFloat(v, 64)
 						fl = append(fl, x)
 					}
+					scratchFloats = fl
 					p.InParam(f.Port).FromFloat(fl...)
+					for k := range fl {
+						fl[k] = -7777.5
+					}
 				default:
 					p.InParam(f.Port).FromStr(f.Values...)
 				}
@@ -352,6 +362,11 @@ func liveChildren() []int {
 	}
 	return kids
 }
+
+var (
+	scratchInts   []int
+	scratchFloats []float64
+)
 
 // wrappedProc is a component in the documented style: a struct that embeds a *scipipe.Process.
 type wrappedProc struct {
